@@ -77,7 +77,7 @@ def generate(tier, seed):
                 script = "p" + "p" * len(pre) + fault
                 cases.append(case("twin", sp, adapter_X(adapter_M(lines), script), "-", steps))
                 dist["exhaustive"] += 1
-    for _ in range(60 if tier == "quick" else 1500):
+    for _ in range(60 if tier == "quick" else 20000):
         n = rnd.choice([3, 6, 15, 40, 80]) if tier != "quick" else rnd.choice([3, 6, 15, 40])
         steps = []
         for _ in range(n):
@@ -119,7 +119,7 @@ def generate(tier, seed):
                 steps += [mu] + block4(od) + block4(od[::-1])
             cases.append(case("twin", sp4, adapter_M(lines4), "-", steps))
             dist["ctx4"] += 1
-    for _ in range(40 if tier == "quick" else 800):
+    for _ in range(40 if tier == "quick" else 8000):
         steps = []
         for _ in range(rnd.choice([6, 15, 40])):
             if rnd.random() < 0.25:
